@@ -12,7 +12,7 @@ CLAIMS = {
          "TreeExhaustiveness::{enqueue,fold}, Token::fold driver, DisjunctiveTerm (HashSet) assumed; encoder conformance assumed (C01)."),
  "C10": ("proof", "Kani harness-stated contracts (interval soundness via membership, component-counting ground truth) + Verus verbatim Termination::conjunction + Verus lemma",
          "Depth algebra: x in gamma(a), y in gamma(b) => x+y in gamma(a /\\ b) and x in gamma(a) or gamma(b) => x in gamma(a \\/ b) for all bounds below 2^62 (complete); products for enumerated repetition bounds (bounded) plus a Verus lemma for every repetition count. Component counting: an INDUCTION over the real code -- every real leaf term satisfies a representation relation, the real SeparatedTerm conjunction preserves it for ANY two terms of any variance shape (outside the known-finding region), the real Repetition::finalize preserves it (bounded repetition counts), and the real finalize then contains the component count -- composed by a Verus lemma to every expression built from leaves by concatenation and conjunctive bracketing of any size and nesting; cross-checked against a concrete component count for all bracketed leaf sequences up to length 4. The fold driver and DisjunctiveTerm (alternation) are assumed.",
-         "Known finding C10.bracket-before-tree (`/{a/**}`, `**/a{b/**}` over-report the lower bound). Token::fold driver (T3), DisjunctiveTerm set operations, encoder conformance (C01), T6 rule guarantees as preconditions."),
+         "Known findings C10.bracket-before-tree (`/{a/**}`, `**/a{b/**}` over-report the lower bound) and C10.optional-edge-text (`<a:0,1>/b` reports 2, matches /b). Zero repetitions in the middle of an expression are not covered. Token::fold driver (T3), DisjunctiveTerm set operations, encoder conformance (C01), T6 rule guarantees as preconditions."),
  "C11": ("proof", "Kani harness-stated contracts on the leaf-level sources of text variance and on character casing",
          "Thin: every leaf-level source of variance reports variant text (wildcards, negated classes, ranges with distinct end points in either order, one-archetype classes invariant exactly when they list one character, cased literal under a mismatching case flag) and a character with any case mapping has casing (all of char, thorough tier). The Text algebra (conjunction / repetition / to_string of fragments) is out of reach (measured again this round), so 'the reported text is the one matched path' is not decided.",
          "Text (VecDeque<Cow<str>>) operators, TextVariance conversion and the fold driver assumed; literals bounded to <= 2 ASCII characters."),
